@@ -31,6 +31,8 @@ ANN = "sd.ServiceAnnouncer"
 
 
 def check(run, prog, tier):
+    from . import model as _model
+    _model.audit(run, prog, 'C04')
     run.explanation = (
         "Convergence time is not statically decidable and is not claimed.  What is decided: (S1) every link of "
         "the chain offer -> discovery notification -> auto-subscribe -> Subscribe -> server notification -> Ack, "
@@ -188,6 +190,15 @@ def check(run, prog, tier):
     run.floor("S5", n7, 10)
     run.abstract_cases += sub.abstract_cases
     run.paths += sub.paths
+
+    # ------------------------------------------------------------------ S11 what is said is what arrives
+    # (offers, subscribes and - for restart detection - the reboot flag travel inside an SD header that is copied when the
+    # option indexes are assigned / resolved: the copy keeps the flags and the entries)
+    from .sdcodec import codec_keeps
+    with run.part("S11 header copies"):
+        codec_keeps(run, prog, tier, "S11", ("SOMEIPSDHeader.assign_option_indexes:shared-array-collected", "SOMEIPSDHeader.resolve_options:every-entry-against-shared-array",
+                                             "SOMEIPSDHeader.build:flags-byte", "SOMEIPSDHeader.parse:flag-bits"),
+                    "a flag or entry that was sent is not the one the peer's stack acts on")
 
     # ------------------------------------------------------------------ S4 (decided by C10 / C14 rule instances)
     from . import C10, C14
